@@ -95,6 +95,35 @@ def check_sibling_agreement(ctx, r):
                     if b or o:
                         defs.append((st, tp, b, o))
             all_defs = c05._assignments_to(f, k.id)
+            if not defs and len(all_defs) == 1 and isinstance(all_defs[0][1], ast.Call) and m.resolve_call(f, all_defs[0][1]).kind == "func":
+                # the key is computed by a helper applied to the dim: the helper must have the
+                # treepath form, and both sites use it (sibling agreement by construction)
+                h = m.resolve_call(f, all_defs[0][1]).target
+                ok_h = False
+                if len(h.params) == 1:
+                    d = h.params[0]
+                    for st in ast.walk(h.node):
+                        if isinstance(st, ast.If) and _is_treepath_test(st.test) and _is_treepath_test(st.test)[0] == d:
+                            pol = _is_treepath_test(st.test)[1]
+                            def ret_of(stmts):
+                                rs = [x.value for x in stmts if isinstance(x, ast.Return)]
+                                return rs[0] if len(rs) == 1 else None
+                            after = [x for x in h.body if isinstance(x, ast.Return)]
+                            tb = ret_of(st.body)
+                            fb = ret_of(st.orelse) or (after[-1].value if after and not st.orelse else None)
+                            tside, fside = (tb, fb) if pol else (fb, tb)
+                            okt = (isinstance(tside, ast.BinOp) and isinstance(tside.op, ast.Add) and isinstance(tside.left, ast.Call)
+                                   and r.role_of_call(h, tside.left) == "get_treepath_memo" and norm(tside.right) == f"{d}.name")
+                            okf = fside is not None and norm(fside) == f"{d}.name"
+                            ok_h = okt and okf
+                            if not ok_h:
+                                ctx.bad("C16.2", h, st, f"the memo-key helper `{h.name}` does not return get_treepath_memo() + <dim>.name on the treepath side and the plain name otherwise")
+                if ok_h:
+                    ctx.ok("C16.2", q, f"key `{k.id}` = {h.name}(dim): treepath -> get_treepath_memo() + name, else plain name")
+                    continue
+                if not any(fd.function == h.qualname for fd in ctx.findings):
+                    raise AnalysisError(f"C16.2: memo key `{k.id}` in {q} comes from helper `{h.name}`, whose form was not recognised")
+                continue
             if not defs:
                 if all(isinstance(v, ast.Attribute) and v.attr == "name" for _, v, _ in all_defs):
                     ctx.bad("C16.2", f, all_defs[0][0], f"memo key `{k.id}` is the bare dim name: the dim's `.treepath` is ignored, so a "
